@@ -26,7 +26,8 @@ RULE = (
     "part 1: hypothesis-generated (K 1-8192 bit incl. top-bit-set/byte-boundary shapes, H 20-64 bytes, session id != H, "
     "letter A-F, nbytes 1-512 dense around digest sizes, sha1/256/384/512) vs the reference KDF; non-trivial = nbytes > "
     "digest size (extension loop) or K whose top bit falls on a byte boundary (mpint sign byte). part 2: every cipher x MAC "
-    "pair x kex hash enumerated, K/H generated, two key exchanges per session, both roles at once; non-trivial = some "
+    "pair x kex hash enumerated, K/H generated, two key exchanges per session, both roles at once, the enumerated pair keying one "
+    "direction and an independently generated suite the other (direction alternating: class asymmetric-suites); non-trivial = some "
     "derived length exceeds the digest size or K has its top bit on a byte boundary; distinct by SHA-1 of the case"
 )
 
@@ -140,6 +141,7 @@ def installed_case(ctx, case):
         classes.append("hash:" + k["hash"])
         for d in ("c2s", "s2c"):
             classes += ["cipher:" + k[d][0], "mac:" + k[d][1], "pair:%s|%s" % (k[d][0], k[d][1])]
+        classes += [a for a in pkt.asymmetry_classes(k) if not a.startswith("asymmetric-style:")]
     ctx.case(case, nontrivial, sorted(set(classes)))
     fc = pkt.framing_class(epochs[-1]["c2s"][0], epochs[-1]["c2s"][1])
     # (1) wire oracle, paramiko senders: reference receivers keyed from the RFC letters
@@ -252,10 +254,15 @@ def run(ctx):
             continue
         if ctx.out_of_time():
             break
-        # first exchange: the enumerated pair in both directions; second exchange: the pair one
-        # way, a generated suite the other way (so c2s/s2c sizes differ) and a new K/H
-        first = st.builds(pkt.keys_dict, S.K, S.H, st.just(h), st.just([c, m, "none"]), st.just([c, m, "none"]))
-        second = st.builds(pkt.keys_dict, S.K, S.H, S.hash, st.just([c, m, "none"]), st.tuples(S.cipher, S.mac, st.just("none")).map(list))
+        # RFC 4253 7.1 negotiates every algorithm per direction: in both exchanges the enumerated pair
+        # keys one direction and an independently generated suite the other (so c2s/s2c key, IV and MAC
+        # key sizes differ); the pair changes direction between the exchanges (and with the pair index),
+        # the second exchange has a new K/H and a generated kex hash
+        pair = st.just([c, m, "none"])
+        gen = st.tuples(S.cipher, S.mac, st.just("none")).map(list)
+        d1, d2 = ((pair, gen), (gen, pair)) if idx % 2 == 0 else ((gen, pair), (pair, gen))
+        first = st.builds(pkt.keys_dict, S.K, S.H, st.just(h), d1[0], d1[1])
+        second = st.builds(pkt.keys_dict, S.K, S.H, S.hash, d2[0], d2[1])
         inst = st.fixed_dictionaries(
             {
                 "part": st.just("installed"),
